@@ -49,7 +49,8 @@ def make_case(index, rng, tier):
         clients.append({"t": round(tc, 2), "dur": rng.choice([0, 0, 0.3, 1.0])})
         tc += rng.uniform(0.2, 0.9)
     real = rng.choice([None, None, None, "sync", "gthread", "gevent", "eventlet"])
-    return {"events": evs, "clients": clients, "unix": rng.randrange(2) == 0, "workers": rng.randrange(1, 3), "real": real,
+    exec_fail = rng.choice([None] * 5 + ["ENOENT", "EACCES"])      # the new binary cannot be executed (first USR2 only)
+    return {"events": evs, "clients": clients, "unix": rng.randrange(2) == 0, "workers": rng.randrange(1, 3), "real": real, "exec_fail": exec_fail,
             "graceful_timeout": rng.choice([1, 2]), "daemon": rng.randrange(3) == 0, "pidfile": rng.randrange(4) != 0,
             "buggify": {"pyticks": rng.randrange(3) == 0, "fork_child_first": rng.randrange(2) == 0, "spurious_select": rng.randrange(3) == 0,
                         "random_spawn_delay": rng.randrange(2) == 0}}
@@ -77,6 +78,20 @@ def run(case, choices):
         w.cfgsrc.update({"threads": 2, "keepalive": 0, "worker_connections": 10})
         w.use_real_workers(real)
         sim.probe("real_worker_class:" + real)
+    execs = {"n": 0, "failed_at": None, "child": None}
+    if case.get("exec_fail"):
+        import errno as _errno
+
+        def sys_fail(p_, op):
+            if op == "execvpe":
+                execs["n"] += 1
+                if execs["n"] == 1:
+                    execs["failed_at"] = sim.now
+                    execs["child"] = p_.pid
+                    sim.probe("exec_of_new_master_failed")
+                    return getattr(_errno, case["exec_fail"])
+            return None
+        sim.sys_fail = sys_fail
     m0 = w.start_master()
     masters = [m0]               # process objects of every master generation, in creation order
     state = {"stopping": {}, "exits": {}, "reexec_forks": [], "refused": [], "node_missing": [], "new_booted": {}}
@@ -134,6 +149,8 @@ def run(case, choices):
                     res.violate("C14:second-usr2-forked", "master pid %d forked a second upgrade child while pid %r is alive"
                                 % (t.proc.pid, [c.pid for c in alive_child]))
                 state["reexec_forks"].append((s.now, t.proc.pid, detail))
+        elif kind == "kill" and t is not None and execs["child"] is not None and t.proc.pid == execs["child"]:
+            state.setdefault("child_kills", []).append((s.now, actor, detail))
         elif kind == "connect-refused":
             rm = running_masters()
             if rm:
@@ -245,6 +262,26 @@ def run(case, choices):
                                 "the new master's pid %d; %s" % (parent_exit, t, p1, nm.pid, ctx()))
                 elif p2 == mine:
                     res.violate("C14:pidfile2-left", "after promotion the '.2' pid file is still there; %s" % ctx())
+        # a new binary that cannot be exec'd: the forked child is still a copy of the old master - whatever it does on its way out, the old
+        # master's workers, pid file and unix socket file are not its to touch
+        if execs["failed_at"] is not None:
+            a0_ = w.masters.get(m0.pid)
+            told = [k for (t_, k) in state.get("sent", {}).get(m0.pid, []) if k in ("term_old", "quit_old") and t_ <= execs["failed_at"] + 3.0]
+            if m0.state == "running" and a0_ is not None and not getattr(a0_, "_world_stopping", False) and not told:
+                kills = [(t_, d_) for (t_, who, d_) in state.get("child_kills", []) if d_[1] not in ("SIGCLD", "SIGCHLD")]
+                if kills:
+                    res.violate("C14:exec-failed:child-signalled-old-workers", "the forked child whose exec failed sent %r to the old master's "
+                                "workers; %s" % (kills[:3], ctx()))
+                if case.get("pidfile", True):
+                    p1_ = sim.fs.get("/run/g.pid")
+                    newer = [x for x in masters[1:] if x.state == "running"]
+                    if not newer and (p1_ is None or bytes(p1_.data) != ("%d\n" % m0.pid).encode()):
+                        res.violate("C14:exec-failed:pidfile-lost", "the exec of the new master failed at t=%.2f; afterwards the old master (pid %d, "
+                                    "still serving) has lost its pid file (now %r); %s"
+                                    % (execs["failed_at"], m0.pid, bytes(p1_.data) if p1_ else None, ctx()))
+                if case["unix"] and "/run/g.sock" not in sim.fs:
+                    res.violate("C14:exec-failed:unix-socket-unlinked", "the exec of the new master failed at t=%.2f and the unix socket file of the "
+                                "old master, which keeps serving, is gone; %s" % (execs["failed_at"], ctx()))
         # a promoted master (its parent is gone for more than 2.5 s) must accept USR2 itself
         for (tu, npid) in state.get("usr2_promoted", []):
             np_ = sim.procs.get(npid)
@@ -268,10 +305,22 @@ def run(case, choices):
                             % (mp.pid, len(live), exp, case["workers"], ", WINCH/HUP history applied" if mp.pid in expected else "", ctx()))
         # the old master must be able to upgrade again once the new one is gone
         a0 = w.masters.get(m0.pid)
+        stale_reexec = False
+        if a0 is not None and execs["failed_at"] is not None and a0.reexec_pid == execs["child"]:
+            cp_ = sim.procs.get(execs["child"])
+            if (cp_ is None or cp_.state != "running") and sim.now > execs["failed_at"] + 1.5:
+                # the child whose exec failed exited - and was reaped by the SIGCHLD handler - before the parent had stored fork()'s return
+                # value in reexec_pid: the pid is recorded afterwards and never cleared (separately keyed; what follows from it is not
+                # reported a second time under the end-state keys)
+                stale_reexec = True
+                res.violate("C14:exec-failed:stale-reexec-pid", "the child forked for the upgrade (pid %d) failed to exec and was reaped before "
+                            "fork() had returned in the parent; the old master recorded reexec_pid=%d afterwards and keeps it for ever: every "
+                            "further USR2 is ignored and its socket file / pid file are not removed when it stops; %s"
+                            % (execs["child"], a0.reexec_pid, ctx()))
         if m0.state == "running" and a0 is not None and not getattr(a0, "_world_stopping", False):
             kids = [x for x in masters[1:] if x.state == "running"]
             last_new_exit = max([state["exits"].get(x.pid, 0) for x in masters[1:]] + [0])
-            if not kids and masters[1:] and sim.now > last_new_exit + 1.5 and a0.reexec_pid != 0:
+            if not kids and masters[1:] and sim.now > last_new_exit + 1.5 and a0.reexec_pid != 0 and not stale_reexec:
                 res.violate("C14:reexec-pid-not-reset", "the new master is gone since t=%.2f but the old master still has reexec_pid=%r "
                             "(it would ignore every further USR2); %s" % (last_new_exit, a0.reexec_pid, ctx()))
         # after everything is over: nothing left behind by the last master to exit
@@ -282,7 +331,7 @@ def run(case, choices):
             # the last master to go must clean up - unless the previous one left less than 2.5 s earlier (the survivor
             # may legitimately not have noticed yet that it is alone: promotion happens once per loop period)
             settled = len(ex) < 2 or ex[-1] - ex[-2] > 2.5
-            if not killed and settled:
+            if not killed and settled and not stale_reexec:
                 if case["unix"] and "/run/g.sock" in sim.fs:
                     res.violate("C14:unix-socket-left", "every master has exited but the unix socket file remains; %s" % ctx())
                 for pth in ("/run/g.pid", "/run/g.pid.2"):
